@@ -1,0 +1,63 @@
+//go:build verif
+
+package consensus
+
+import "go.sia.tech/core/types"
+
+// Thin wrappers that let an external verification harness drive unexported
+// functions directly. Compiled only with -tags verif.
+
+// VerifLeaf is an accumulator leaf as seen by the harness.
+type VerifLeaf struct {
+	Elem        *types.StateElement
+	ElementHash types.Hash256
+	Spent       bool
+}
+
+func (l VerifLeaf) leaf() elementLeaf { return elementLeaf{l.Elem, l.ElementHash, l.Spent} }
+
+func verifLeaves(ls []VerifLeaf) []elementLeaf {
+	out := make([]elementLeaf, len(ls))
+	for i := range ls {
+		out[i] = ls[i].leaf()
+	}
+	return out
+}
+
+// VerifLeafHash exposes elementLeaf.hash.
+func VerifLeafHash(l VerifLeaf) types.Hash256 { return l.leaf().hash() }
+
+// VerifProofRoot exposes proofRoot.
+func VerifProofRoot(leafHash types.Hash256, leafIndex uint64, proof []types.Hash256) types.Hash256 {
+	return proofRoot(leafHash, leafIndex, proof)
+}
+
+// VerifStorageProofRoot exposes storageProofRoot.
+func VerifStorageProofRoot(leafHash types.Hash256, leafIndex, filesize uint64, proof []types.Hash256) types.Hash256 {
+	return storageProofRoot(leafHash, leafIndex, filesize, proof)
+}
+
+// VerifContainsLeaf exposes ElementAccumulator.containsLeaf.
+func VerifContainsLeaf(acc *ElementAccumulator, l VerifLeaf) bool { return acc.containsLeaf(l.leaf()) }
+
+// VerifApplyUpdate wraps elementApplyUpdate.
+type VerifApplyUpdate struct{ eau elementApplyUpdate }
+
+// UpdateElementProof exposes elementApplyUpdate.updateElementProof.
+func (u *VerifApplyUpdate) UpdateElementProof(e *types.StateElement) { u.eau.updateElementProof(e) }
+
+// VerifRevertUpdate wraps elementRevertUpdate.
+type VerifRevertUpdate struct{ eru elementRevertUpdate }
+
+// UpdateElementProof exposes elementRevertUpdate.updateElementProof.
+func (u *VerifRevertUpdate) UpdateElementProof(e *types.StateElement) { u.eru.updateElementProof(e) }
+
+// VerifAccApply exposes ElementAccumulator.applyBlock.
+func VerifAccApply(acc *ElementAccumulator, updated, added []VerifLeaf) *VerifApplyUpdate {
+	return &VerifApplyUpdate{acc.applyBlock(verifLeaves(updated), verifLeaves(added))}
+}
+
+// VerifAccRevert exposes ElementAccumulator.revertBlock.
+func VerifAccRevert(acc *ElementAccumulator, updated, added []VerifLeaf) *VerifRevertUpdate {
+	return &VerifRevertUpdate{acc.revertBlock(verifLeaves(updated), verifLeaves(added))}
+}
